@@ -4,7 +4,7 @@ interpreter's observable state after every step (DESIGN.md 3.3)."""
 from fractions import Fraction as F
 
 from sim import ref
-from sim.chart import gen_spec, build_api, tid, HIST
+from sim.chart import gen_spec, build_api, build_via_edits, tid, HIST
 from sim.engine import Abandon
 from sim.probes import Probe, SimClock
 
@@ -13,6 +13,19 @@ from sismic.model import Event, InternalEvent, MetaEvent
 from sismic import exceptions as sx
 
 TICK = F(1, 64)
+
+
+def materialise(sp, ch, res=None):
+    """statechart object for `sp`: usually straight through the API, in a quarter of the runs by the
+    detour of build_via_edits (attach elsewhere / temporary names, execute and query, then move / rename)"""
+    st = ch.s('mat')
+    if st.flag(1, 4):
+        sc, nm, na = build_via_edits(sp, st)
+        if res is not None:
+            res.stats['charts_materialised_through_move_and_rename'] += 1
+            res.stats['states_moved_or_renamed_before_the_run'] += nm + na
+        return sc
+    return None
 
 
 class StepRec:
@@ -38,6 +51,9 @@ class Sim:
         self.sc = statechart if statechart is not None else build_api(sp)
         self.P = probe if probe is not None else Probe()
         self.clock = clock if clock is not None else SimClock()
+        # the time of "the last step" before any step is the clock value sampled when the interpreter is
+        # built: taken from the simulator's clock, never from the interpreter under test
+        t0 = F(self.clock.peek_next())
         self.it = interpreter_klass(self.sc, clock=self.clock, initial_context={'P': self.P},
                                     ignore_contract=ignore_contract)
         self.mem = {}
@@ -45,7 +61,7 @@ class Sim:
         self.next_uid = 0
         self.entry = {}
         self.idle = {}
-        self.lastT = F(self.it.time)
+        self.lastT = t0
         self.started = False
         self.k = 0
         self.all_uids = {}     # uid -> dict(name, due, internal, consumed_at)
